@@ -27,6 +27,8 @@ from ..runner import Sub
 
 ID = 'C20'
 WARM_EXTRA = True
+TECHNIQUE = 'call-table PBT (purity, determinism, layouts, dtypes, aliasing, fresh-process-state differential) + exhaustive enumeration of every reference site (names, attributes, arities)'
+LEVEL_TEXT = 'Exploration: All 115 public functions have a call-table entry; ~1 980 reference sites resolved against live module objects; aliases are covered dynamically only. Finds counter-examples (shrunk to a replay file); never proves absence.'
 RULE = ('dynamic: case = (public function from the call table, scenario = generated curve n >= 8 with knees, '
         'reduction, expected points, thresholds).  Each case calls the function on deep-copied C-ordered '
         'float64 arguments, checks the arguments are unchanged, calls again (identical result), then with '
